@@ -194,25 +194,31 @@ def _dedupe(names):
     return seen
 
 
-def tol_vector(eps, m, depth, bound, wmax=1.0, scale=1.0):
+def jac_error_bound(eps, m, depth, Jabs):
+    """Entry-wise bound on |J_real - J_model| for any reasonable floating-point chain rule."""
     C = 256.0 * (m + depth + 2)
-    floor = 1e-3 * (float(bound.max()) if bound.size else 0.0)
-    return scale * C * eps * (bound + floor) + 1e-290
+    floor = 1e-3 * (float(Jabs.max()) if Jabs.size else 0.0)
+    return C * eps * (Jabs + floor) + 1e-290
 
 
 def aggregate_model(agg_spec, J, Jabs, eps, depth, dtype_name):
     """Expected aggregation of the model Jacobian. Returns dict(vec, tol, ambiguous)."""
     m = J.shape[0]
+    Jerr = jac_error_bound(eps, m, depth, Jabs)
+    if J.shape[1] == 0:
+        return {"vec": np.zeros(0), "tol": np.zeros(0), "ambiguous": False}
     if agg_spec["kind"] in HAS_REF:
-        r = ref_apply(agg_spec, J, Jabs)
-        tol = tol_vector(eps, m, depth, r["bound"])
-        return {"vec": r["vec"], "tol": tol, "ambiguous": r["ambiguous"]}
+        r = ref_apply(agg_spec, J, Jerr)
+        out_round = 8.0 * (m + 2) * eps * (np.abs(r["vec"]) + (np.abs(J).max(axis=0) if m else 0.0))
+        return {"vec": r["vec"], "tol": r["tol"] + out_round + 1e-290, "ambiguous": r["ambiguous"]}
     # no reference model: the same real aggregator on the model's Jacobian in canonical column order
     # (what is under test in autojac runs is the plumbing, not the aggregator)
     A = make_agg(agg_spec, torch.float64)
     vec = A(torch.tensor(J, dtype=torch.float64)).detach().numpy()
     s = float(np.abs(J).max()) if J.size else 0.0
-    tol = np.full(J.shape[1], 1e-6 * (s + float(np.abs(vec).max() if vec.size else 0.0)) + 1e-290)
+    pref = agg_spec.get("pref") or [1.0]
+    amp = 100.0 * m * (1.0 + max(abs(x) for x in pref))
+    tol = np.full(J.shape[1], 1e-6 * (s + float(np.abs(vec).max() if vec.size else 0.0)) + amp * float(Jerr.max()) + 1e-290)
     if dtype_name == "float32":
         tol = tol * 1e3
     return {"vec": vec, "tol": tol, "ambiguous": False}
@@ -274,7 +280,7 @@ def expect_mtl(model, cutmodel, call, eps):
                 tot += Ji.reshape(tot.shape)
                 bnd += Jai.reshape(tot.shape)
                 cnt += 1
-        tol = tol_vector(eps, cnt + 1, depth, bnd.reshape(-1)).reshape(tot.shape)
+        tol = jac_error_bound(eps, cnt + 1, depth, bnd)
         updates[p] = (tot, tol)
     # shared parameters: rows back-propagated through the features only
     canon = [n for n in all_leaves if n in shared] + [n for n in shared if n not in all_leaves]
